@@ -99,11 +99,58 @@ func c06Eq(a, b []byte) bool {
 	return same
 }
 
-// c06Nal returns a symbolic NAL unit of the given class: 0 IDR(5), 1 slice(1), 2 SEI(6), 3 AUD(9), 4 other(12)
-func c06Nal(tag string, class, n int) []byte {
+var (
+	c06HevcVps = []byte{0x40, 0x01, 0x0c, 0x01, 0xff, 0xff, 0x01, 0x60}
+	c06HevcSps = []byte{0x42, 0x01, 0x01, 0x01, 0x60, 0x90}
+	c06HevcPps = []byte{0x44, 0x01, 0xc1, 0x72}
+)
+
+// c06HevcSeqHeader builds an hvcC sequence header (ISO/IEC 14496-15 8.3.3.1) with one VPS, SPS and PPS.
+func c06HevcSeqHeader() base.RtmpMsg {
+	p := []byte{0x1c, 0, 0, 0, 0}
+	p = append(p, make([]byte, 22)...)
+	p[5] = 1
+	p = append(p, 3)
+	for _, a := range []struct {
+		t byte
+		b []byte
+	}{{32, c06HevcVps}, {33, c06HevcSps}, {34, c06HevcPps}} {
+		p = append(p, a.t, 0, 1, byte(len(a.b)>>8), byte(len(a.b)))
+		p = append(p, a.b...)
+	}
+	return base.RtmpMsg{Header: base.RtmpHeader{Csid: 6, MsgLen: uint32(len(p)), MsgTypeId: 9, MsgStreamId: 1}, Payload: p}
+}
+
+// c06Type is the NAL unit type under the codec of this instance.
+func c06Type(hevc bool, b0 byte) uint8 {
+	if hevc {
+		return b0 >> 1 & 0x3f
+	}
+	return b0 & 0x1f
+}
+
+// c06Nal returns a symbolic NAL unit of the given class: 0 IDR, 1 trailing slice, 2 SEI, 3 AUD,
+// 4 any type that the TS leg has no special rule for (arbitrary: AVC 1..23 minus 5..9, HEVC 0..31 and
+// 36..63 minus the prefix/suffix SEI; covers leading pictures, reserved and unspecified types)
+func c06Nal(tag string, hevc bool, class, n int) []byte {
 	nal := vrt.Bytes(tag, n)
-	typ := []uint8{5, 1, 6, 9, 12}[class]
-	vrt.Assume(nal[0]&0x1f == typ && nal[0]&0x80 == 0)
+	vrt.Assume(nal[0]&0x80 == 0)
+	t := c06Type(hevc, nal[0])
+	if hevc {
+		switch class {
+		case 4:
+			vrt.Assume(!vrt.Or(vrt.And(t >= 32, t <= 35), vrt.Or(t == 39, t == 40)))
+		default:
+			vrt.Assume(t == []uint8{19, 1, 39, 35}[class])
+		}
+	} else {
+		switch class {
+		case 4:
+			vrt.Assume(vrt.And(t >= 1, vrt.Or(t < 5, t > 9)))
+		default:
+			vrt.Assume(t == []uint8{5, 1, 6, 9}[class])
+		}
+	}
 	vrt.Assume(nal[n-1] != 0)
 	for i := 0; i+2 < n; i++ {
 		vrt.Assume(!vrt.And(vrt.And(nal[i] == 0, nal[i+1] == 0), nal[i+2] <= 3))
@@ -111,10 +158,13 @@ func c06Nal(tag string, class, n int) []byte {
 	return nal
 }
 
-func c06VideoMsg(ts uint32, key bool, cts uint32, nals [][]byte) base.RtmpMsg {
+func c06VideoMsg(hevc bool, ts uint32, key bool, cts uint32, nals [][]byte) base.RtmpMsg {
 	p := []byte{0x27, 1, byte(cts >> 16), byte(cts >> 8), byte(cts)}
 	if key {
 		p[0] = 0x17
+	}
+	if hevc {
+		p[0] = p[0]&0xf0 | 0x0c
 	}
 	for _, n := range nals {
 		p = append(p, byte(len(n)>>24), byte(len(n)>>16), byte(len(n)>>8), byte(len(n)))
@@ -127,19 +177,25 @@ func c06VideoMsg(ts uint32, key bool, cts uint32, nals [][]byte) base.RtmpMsg {
 func VerifC06Ts() {
 	col := &c06Collector{}
 	r := NewRtmp2MpegtsRemuxer(col)
-	r.FeedRtmpMessage(c05AvcSeqHeader())
+	hevc := vrt.Param("codec") == 1
+	if hevc {
+		vrt.Assume(vrt.Param("nlen") >= 2) // an H.265 NAL unit header is two bytes
+		r.FeedRtmpMessage(c06HevcSeqHeader())
+	} else {
+		r.FeedRtmpMessage(c05AvcSeqHeader())
+	}
 	r.FeedRtmpMessage(c05AacSeqHeader())
 	vrt.Assert(len(col.patpmt) == 376, "PAT/PMT emitted before any frame")
 
 	nl := vrt.Param("nlen")
 	// frame 1: key frame, NAL classes from cls1 (two digits base 5), frame 2: inter frame with one slice
 	cls := vrt.Param("cls1")
-	n1 := c06Nal("n1", cls%5, nl)
-	n2 := c06Nal("n2", cls/5%5, nl)
+	n1 := c06Nal("n1", hevc, cls%5, nl)
+	n2 := c06Nal("n2", hevc, cls/5%5, nl)
 	ts1 := uint32(vrt.Param("ts1"))
 	cts1 := uint32(vrt.Param("cts1"))
 	key := cls%5 == 0 || cls/5%5 == 0
-	r.FeedRtmpMessage(c06VideoMsg(ts1, key, cts1, [][]byte{n1, n2}))
+	r.FeedRtmpMessage(c06VideoMsg(hevc, ts1, key, cts1, [][]byte{n1, n2}))
 
 	// audio: a frames of alen bytes each
 	an := vrt.Param("aframes")
@@ -154,8 +210,8 @@ func VerifC06Ts() {
 	}
 	// frame 2
 	ts2 := ts1 + uint32(vrt.Param("dt"))
-	n3 := c06Nal("n3", 1, nl)
-	r.FeedRtmpMessage(c06VideoMsg(ts2, false, 0, [][]byte{n3}))
+	n3 := c06Nal("n3", hevc, 1, nl)
+	r.FeedRtmpMessage(c06VideoMsg(hevc, ts2, false, 0, [][]byte{n3}))
 	r.Dispose()
 
 	vrt.Assert(len(col.packets)%188 == 0, "whole TS packets")
@@ -172,18 +228,18 @@ func VerifC06Ts() {
 			ap = append(ap, p.hdr)
 		}
 	}
-	vrt.Assert(len(vp) == 2, "one PES per video frame")
-	if len(vp) != 2 {
-		return
-	}
 	strip := func(in [][]byte) [][]byte {
 		var out [][]byte
 		for _, n := range in {
 			if len(n) == 0 {
 				continue
 			}
-			t := n[0] & 0x1f
-			if t == 9 || t == 7 || t == 8 {
+			t := c06Type(hevc, n[0])
+			if hevc {
+				if (t >= 32 && t <= 35) || t == 39 || t == 40 { // parameter sets, AUD, SEI (omitted from TS for H.265)
+					continue
+				}
+			} else if t == 9 || t == 7 || t == 8 {
 				continue
 			}
 			out = append(out, n)
@@ -191,8 +247,22 @@ func VerifC06Ts() {
 		return out
 	}
 	want1 := strip([][]byte{n1, n2})
+	if len(want1) == 0 {
+		// a message made only of units the TS leg omits produces no PES
+		vrt.Assert(len(vp) == 1, "no PES for a frame without forwardable units")
+		if len(vp) == 1 {
+			got2 := strip(c06SplitAnnexb(vp[0].es))
+			vrt.Assert(len(got2) == 1 && c06Eq(got2[0], n3), "frame 2: NAL unit byte for byte")
+		}
+		vrt.Cover("end")
+		return
+	}
+	vrt.Assert(len(vp) == 2, "one PES per video frame")
+	if len(vp) != 2 {
+		return
+	}
 	got1 := strip(c06SplitAnnexb(vp[0].es))
-	vrt.Assert(len(got1) == len(want1), "frame 1: same number of NAL units (AUD and parameter sets aside)")
+	vrt.Assert(len(got1) == len(want1), "frame 1: same number of NAL units (AUD, parameter sets and H.265 SEI aside)")
 	for i := 0; i < len(want1) && i < len(got1); i++ {
 		vrt.Assert(c06Eq(got1[i], want1[i]), "frame 1: NAL units byte for byte, in order")
 	}
@@ -201,23 +271,39 @@ func VerifC06Ts() {
 	// key frame carries the parameter sets before the IDR
 	if cls%5 == 0 || cls/5%5 == 0 {
 		all := c06SplitAnnexb(vp[0].es)
-		sawSps, sawPps, idrAfter := false, false, true
+		sawVps, sawSps, sawPps, idrAfter := !hevc, false, false, true
 		for _, n := range all {
 			if len(n) == 0 {
 				continue
 			}
-			switch n[0] & 0x1f {
-			case 7:
-				sawSps = c06Eq(n, c05Sps)
-			case 8:
-				sawPps = c06Eq(n, c05Pps)
-			case 5:
-				if !sawSps || !sawPps {
-					idrAfter = false
+			t := c06Type(hevc, n[0])
+			if hevc {
+				switch {
+				case t == 32:
+					sawVps = c06Eq(n, c06HevcVps)
+				case t == 33:
+					sawSps = c06Eq(n, c06HevcSps)
+				case t == 34:
+					sawPps = c06Eq(n, c06HevcPps)
+				case t == 19:
+					if !sawVps || !sawSps || !sawPps {
+						idrAfter = false
+					}
+				}
+			} else {
+				switch t {
+				case 7:
+					sawSps = c06Eq(n, c05Sps)
+				case 8:
+					sawPps = c06Eq(n, c05Pps)
+				case 5:
+					if !sawSps || !sawPps {
+						idrAfter = false
+					}
 				}
 			}
 		}
-		vrt.Assert(sawSps && sawPps && idrAfter, "parameter sets re-inserted before the IDR unit")
+		vrt.Assert(sawVps && sawSps && sawPps && idrAfter, "parameter sets re-inserted before the IDR unit")
 	}
 	// timestamps: one constant per track
 	d1, d2 := vp[0].pts, vp[1].pts
